@@ -103,10 +103,11 @@ Proof.
   destruct X as [X|X]; [left|right]; apply TR; auto.
 Qed.
 
-(* Close (compaction): find answers as before in EVERY crash state (P1, P2); outside the window in which the compacted twin
-   and the original coexist all queries answer as before or after *)
+(* Close (compaction): find answers as before in EVERY crash state (P1, P2); all queries answer as before or after in every crash
+   state except those in which the compacted twin already holds a complete status line while the original still exists *)
+(* the window that remains (F7b): the compacted twin holds a complete status line and the original is not yet unlinked *)
 Definition twin_window0 (fs0 fs' : fs) : Prop :=
-  exists dir fn f, dirs fs' = dirs fs0 /\ files fs' = files fs0 ++ [(dir, fn, f)].
+  exists dir fn f, dirs fs' = dirs fs0 /\ files fs' = files fs0 ++ [(dir, fn, f)] /\ parse f <> None.
 
 Theorem crash_close0 es now fs' : premises loc dirhash D days K (es ++ [EOp (OClose now)]) ->
   In fs' (crash_states loc dirhash (y_h (yrun loc dirhash sys_init es)) (OClose now)) ->
@@ -122,7 +123,7 @@ Proof.
   destruct (crash_close rname (rpath loc dirhash) (ys_h ys) (sp_state es) L (ys_seen ys) now s' R Iok Iseen Ook Ohk IN') as [A B].
   split.
   - intros d req Id. rewrite FQ by auto. apply A.
-  - rewrite sp_state_snoc. simpl fst. destruct B as [[w [fx [B1 [B2 B3]]]]|[B|B]].
+  - rewrite sp_state_snoc. simpl fst. destruct B as [[w [fx [B1 [B2 [B3 B4]]]]]|[B|B]].
     + left. exists (rdir dirhash (k_dag (twin (sw_key w)))), (rname (twin (sw_key w))), fx.
       rewrite Ih, E. unfold render_state, render_fs. simpl. rewrite B2, B3, map_app. auto.
     + right. left. apply TR; auto.
